@@ -11,6 +11,7 @@ CONSTANTS
   FixDetach = TRUE
   FixUpdater = TRUE
   CfgOK <- CfgOne
+  Features <- FeatNone
 SPECIFICATION MCSpec
 VIEW View
 INVARIANTS TypeOK ClosedOnce WriterExclusive OrderedExact RegistryConsistent NoWriteAfterClose
